@@ -551,3 +551,46 @@ theorem array_assign_copies (h : Heap) (a b : Nat) (hab : a ≠ b) (ha : a < h.l
   · intro x; rw [getArr_setArr]; simp [Ne.symm hab, e1]
 
 end GoSpec.Heap
+
+/-! ## non-vacuity: concrete non-trivial instances of the hypotheses / statements -/
+
+namespace Composite
+
+-- a uint64 index above MaxInt64 fits its kind, is converted to a negative int and panics
+example : IKind.uint64.fits 18446744073709551615 ∧ IKind.uint64 ≠ .untyped := by decide
+example : wrapInt 18446744073709551615 = -1 ∧ indexRun 3 (wrapInt 18446744073709551615) = none := by decide
+example : indexRun 3 (wrapInt 2) = some 2 := by decide
+example : indexOutcome true .parray 3 true ⟨.uint8, false, 2⟩ = .ok 2 := by decide
+example : indexOutcome true .slice 3 false ⟨.uint64, false, 9223372036854775809⟩ = .panic := by decide
+-- run-time bounds of mixed kinds
+example : VarArg ⟨.uint8, false, 1⟩ ∧ VarArg ⟨.int64, false, 4⟩ := by unfold VarArg; decide
+example : sliceOutcome true ⟨.slice, 2, 5, some ⟨.uint8, false, 1⟩, some ⟨.int64, false, 4⟩, none, false⟩ = .ok ⟨1, 3, 4⟩ := by decide
+example : sliceOutcome true ⟨.slice, 2, 5, some ⟨.uint8, false, 3⟩, none, none, false⟩ = .panic := by decide
+example : sliceOutcome true ⟨.array, 4, 4, some ⟨.int, false, 1⟩, some ⟨.uint16, false, 2⟩, some ⟨.uint64, false, 3⟩, true⟩ = .ok ⟨1, 1, 2⟩ := by decide
+example : sliceOutcome true ⟨.str, 3, 3, none, some ⟨.uint64, false, 18446744073709551615⟩, none, false⟩ = .panic := by decide
+example : sliceOutcome true ⟨.cstr, 3, 3, some ⟨.untyped, true, -1⟩, none, none, false⟩ = .cerr := by decide
+-- literals: keys, gaps, typed keys; duplicates and out-of-bounds rejected
+example : litElements none [.keyed .untyped 2, .pos, .keyed .uint8 0, .pos] = .ok (4, [2, 3, 0, 1]) := by rfl
+example : litValue none [.keyed .untyped 2, .pos, .keyed .uint8 0] [100, 101, 102] = .ok [102, 0, 100, 101] := by rfl
+example : litElements none [.keyed .untyped 1, .keyed .untyped 0, .pos] = .error .dup := by rfl
+example : litElements (some 2) [.pos, .pos, .pos] = .error .oob := by rfl
+example : specIdx [.keyed .untyped 2, .pos, .keyed .uint8 0, .pos] 3 = 1 := by decide
+-- the arm of uint16 truncating through uint8 is NOT sound, and reads wrongly
+example : Arm.sound ⟨.vecVar, .uint16, .uint16, .uint, .uint8, true⟩ = false := by decide
+example : Arm.readInt ⟨.vecVar, .uint16, .uint16, .uint, .uint8, true⟩ 65533 = some 253 := by decide
+example : Arm.readInt ⟨.vecVar, .int8, .int8, .int, .int8, true⟩ (-127) = some (-127) := by decide
+
+end Composite
+
+namespace GoSpec.Heap
+
+example : WF [[1, 2, 3, 0, 0]] ⟨0, 0, 3, 5⟩ := by unfold WF; decide
+-- append within capacity writes into the shared array; beyond capacity it leaves it alone
+example : append goGrow [[1, 2, 3, 0, 0]] ⟨0, 0, 3, 5⟩ [7] = ([[1, 2, 3, 7, 0]], ⟨0, 0, 4, 5⟩) := by decide
+example : append goGrow [[1, 2, 3]] ⟨0, 0, 3, 3⟩ [7] = ([[1, 2, 3], [1, 2, 3, 7, 0, 0]], ⟨1, 0, 4, 6⟩) := by decide
+-- overlapping append / copy have memmove semantics
+example : (appendSlice goGrow [[0, 1, 2, 3, 4]] ⟨0, 0, 2, 5⟩ ⟨0, 1, 3, 4⟩).1 = [[0, 1, 1, 2, 3]] := by decide
+example : copy [[1, 2, 3, 4, 5]] ⟨0, 1, 4, 4⟩ ⟨0, 0, 5, 5⟩ = ([[1, 1, 2, 3, 4]], 4) := by decide
+example : copy [[1, 2, 3, 4, 5]] ⟨0, 0, 5, 5⟩ ⟨0, 2, 3, 3⟩ = ([[3, 4, 5, 4, 5]], 3) := by decide
+
+end GoSpec.Heap
